@@ -310,7 +310,7 @@ class Padding(WidgetDecoration[WrappedWidget], typing.Generic[WrappedWidget]):
             canv = self._original_widget.render((), focus)
 
         if canv.cols() == 0:
-            canv = SolidCanvas(" ", size[0], canv.rows())
+            canv = SolidCanvas(" ", size[0] if size else self.pack((), focus)[0], canv.rows())
             canv = CompositeCanvas(canv)
             canv.set_depends([self._original_widget])
             return canv
